@@ -431,9 +431,17 @@ def r113(ctx, rep):
             n_ctor += 1
         _ctor_presorted(ctx, rep, ti, init)
     ctx.floor('presorted_constructors', n_ctor, 15)
-    # functions: `presorted` forwarded only with the caller's own table; literal True justified
+    n_fwd = check_presorted_calls(ctx, rep, 'R11.3', ctx.functions(['petl'], controls=[CONTROL]), ti)
+    ctx.floor('presorted_forwarding_sites', n_fwd, 20)
+
+
+def check_presorted_calls(ctx, rep, rule, fns, ti=None):
+    """functions: `presorted` forwarded only with the caller's own table; a literal presorted=True justified by a sort of
+    the very table that is passed"""
+    ti = ti or tableinfo(ctx)
     n_fwd = 0
-    for fn in ctx.functions(['petl'], controls=[CONTROL]):
+    before = len(rep.obligations)
+    for fn in fns:
         real = not fn.module.name.startswith('petl._controls')
         for node in own_nodes(fn.node):
             if not isinstance(node, ast.Call):
@@ -481,7 +489,11 @@ def r113(ctx, rep):
                         n_fwd += 1
                     construct = '%s(..., presorted=True)' % norm(node.func)
                     _literal_presorted(ctx, rep, fn, node, g, bound, targs, construct)
-    ctx.floor('presorted_forwarding_sites', n_fwd, 20)
+    if rule != 'R11.3':
+        for o in rep.obligations[before:] + rep.control_obligations:
+            if o.rule == 'R11.3':
+                o.rule = rule
+    return n_fwd
 
 
 def _ctor_presorted(ctx, rep, ti, init):
